@@ -76,6 +76,9 @@ def run(ctx):
                     # clamping would be acceptable; storing garbage is not
                     if not (1980 <= r["raw_wrt"][0] <= 2107):
                         ctx.violation(f"TZ={z}: out-of-range instant {t} accepted and stored as year {r['raw_wrt'][0]}", f"range-accepted:{tag}", rep)
+                elif r.get("mixed_changed"):
+                    ctx.violation(f"TZ={z} utc={r['utc']}: a call with the fields {r['mixed_changed']}, rejected because of the out-of-range instant {t} in the last of them, "
+                                  f"changed the earlier fields of the entry", "range-mixed-call", dict(tz=z, utc=r["utc"], t=t, fields=r["mixed_changed"]))
                 elif r["set"].startswith("INTERNAL") or not r.get("still_writable", False) or not r.get("unchanged", True):
                     ctx.violation(f"TZ={z} utc={r['utc']}: out-of-range instant {t}: {r['set']}, entry unchanged={r.get('unchanged')}, still writable={r.get('still_writable')}"
                                   f" {r.get('after_error', '')}", f"range-corrupts:{tag}", rep)
